@@ -109,6 +109,21 @@ class Probe:
         o["fmt"] = [ord(fmt[0]) if fmt[0] else -1, fmt[1], ord(fmt[2]) if fmt[2] else -1, fmt[3]]
         o["alpha"] = enc_alpha(alpha)
         o["sargs"] = enc_sargs(sargs)
+        # The parse must give every caller its OWN result: callers update the returned style
+        # arguments (UrwidImage adds z_index / blend / split_cells).  Parse, update the result the
+        # way such a caller does, parse again: the second result must be the first one's value.
+        try:
+            import copy
+            first = im._check_format_spec(spec)
+            want = copy.deepcopy(first)
+            first[-1].update(z_index=77, blend=False, split_cells=True)
+            again = im._check_format_spec(spec)
+            if again != want:
+                o["impure"] = 1
+                o["sargs"] = [9]  # what the specifier denotes now depends on an earlier caller
+        except Exception as e:  # noqa: BLE001
+            o["impure"] = 2
+            o["sargs"] = [9]
         p = doc_params(spec, self.style)
         if p is None:
             o["draw"], o["deq"] = [], 0
